@@ -510,3 +510,37 @@ def string_sweep_programs(strings, per_prog=60, export=("ExportProvn",)):
             ops.append([e, "0"])
         progs_.append(ops)
     return progs_
+
+
+def scoping_programs(export=("ExportJson", "ExportProvn")):
+    """fixed programs: bundles that bind a prefix (or a default namespace) of their document to another URI *before* using it,
+    so that every name is valid and unambiguous in its own scope but the two scopes differ"""
+    U1, U2, U3 = "http://example.org/one/", "http://example.org/two/", "http://example.org/three/"
+    D1, D2 = "http://default.test/", "http://d2.test/"
+    out = []
+    for doc_default in (None, D1):
+        for bundle_default in (None, D2):
+            for rebinding in (True, False):
+                b = ["b", "0", "0"]
+                p = [["NewDoc"], ["AddNs", ["d", "0"], "ex", U1], ["AddNs", ["d", "0"], "other", U3]]
+                if doc_default:
+                    p.append(["SetDefault", ["d", "0"], doc_default])
+                p.append(["NewBundle", "0", ["S", "other:b"]])
+                if rebinding:
+                    p.append(["AddNs", b, "ex", U2])
+                if bundle_default:
+                    p.append(["SetDefault", b, bundle_default])
+                p.append(["NewRecord", ["d", "0"], "Entity", ["S", "ex:e1"], [[["S", "ex:k"], ["qn", "ex", U1, "v"]]]])
+                p.append(["NewRecord", b, "Entity", ["S", "ex:e1"],
+                          [[["S", "ex:k"], ["qn", "ex", U2 if rebinding else U1, "v"]], [["S", "prov:type"], ["qn", "other", U3, "T"]]]])
+                p.append(["NewRecord", b, "Activity", ["S", "ex:a1"], []])
+                p.append(["NewRecord", b, "Generation", "none",
+                          [[["Q", "prov", PROV, "entity"], ["str", "ex:e1"]], [["Q", "prov", PROV, "activity"], ["str", "ex:a1"]]]])
+                if doc_default:
+                    p.append(["NewRecord", ["d", "0"], "Entity", ["S", "bare1"], []])
+                if doc_default or bundle_default:
+                    p.append(["NewRecord", b, "Entity", ["S", "bare2"], [[["S", "ex:k"], ["str", "x"]]]])
+                for e in export:
+                    p.append([e, "0"])
+                out.append(p)
+    return out
